@@ -57,12 +57,27 @@ def far_neighbours(args):
     return uniq[:7]
 
 
+def edge_neighbours(args):
+    """tuples at the BOUNDARY of the parameter ranges: no iteration at all and a single one (the first / last element of every
+    loop that builds step sizes or a closed form), mu = 0 where the example takes a mu; kept, as always, only where the example
+    accepts the tuple on the pinned tree and its claim holds there"""
+    num = lambda k: isinstance(args.get(k), (int, float)) and not isinstance(args.get(k), bool)
+    out = []
+    if isinstance(args.get("n"), int) and not isinstance(args.get("n"), bool):
+        for k in (0, 1, 2):
+            if k != args["n"]: out.append(dict(args, n=k))
+    if num("mu") and args["mu"] > 0: out.append(dict(args, mu=0))
+    return out
+
+
 def main(procs, far=False):
     global neighbours
-    if far: neighbours = lambda args, rnd: far_neighbours(args)
+    if far == "edge": neighbours = lambda args, rnd: edge_neighbours(args)
+    elif far: neighbours = lambda args, rnd: far_neighbours(args)
     tab = json.load(open(os.path.join(HERE, "ref_table.json")))
     if far:
         known = json.load(open(os.path.join(HERE, "ref_neighbours.json")))
+        if far == "edge" and os.path.exists(os.path.join(HERE, "ref_far.json")): known = known + json.load(open(os.path.join(HERE, "ref_far.json")))
         tab_seen = {json.dumps([t["module"], t["args"]], sort_keys=True) for t in known}
     else: tab_seen = set()
     rnd = random.Random(1)
@@ -85,9 +100,9 @@ def main(procs, far=False):
         else: continue            # the example does not claim anything there (or the claim of the suite tuple does not extend)
         if t["claim"] == "upper" and claim == "tight": claim = "upper"       # never claim more than the suite tuple does
         out.append(dict(module=mod, func=fn, args=a, claim=claim, baseline_pepit=p, baseline_theory=th, seconds=round(r["s"], 1)))
-    json.dump(out, open(os.path.join(HERE, "ref_far.json" if far else "ref_neighbours.json"), "w"), indent=0)
+    json.dump(out, open(os.path.join(HERE, ("ref_edge.json" if far == "edge" else "ref_far.json") if far else "ref_neighbours.json"), "w"), indent=0)
     print("kept", len(out), "of", len(jobs))
 
 
 if __name__ == "__main__":
-    main(int(sys.argv[1]) if len(sys.argv) > 1 else 12, far=(len(sys.argv) > 2 and sys.argv[2] == "far"))
+    main(int(sys.argv[1]) if len(sys.argv) > 1 else 12, far=(sys.argv[2] if len(sys.argv) > 2 and sys.argv[2] in ("far", "edge") else False))
